@@ -108,14 +108,15 @@ def run_history(world, spec, hist, store_kind, oracles, sigtab=None, opts=None, 
                 for cs in cones.values():
                     seen_cones.update(cs)
             # ---------------- C03: signatures are a function of (program, variant, entry) only
-            if sigtab is not None and real.synced:
+            if sigtab is not None and real.synced and not _pkg_in_sig(spec):
                 k = (spec["id"], S.vkey(variant), entry)
                 prevv = sigtab.get(k)
                 if prevv is None:
                     sigtab[k] = (dict(real.sigs), (hist[:si + 1], store_kind))
                 elif prevv[0] != real.sigs and "C03" in oracles:
                     probs.append(("C03", f"C03|history_dependent|{spec['key']}",
-                                  _what(spec, hist, si, f"signatures {_abbr(real.sigs)} differ from {_abbr(prevv[0])} obtained for the same program state via {prevv[1]}")))
+                                  _what(spec, hist, si, f"signatures {_abbr(real.sigs)} differ from {_abbr(prevv[0])} obtained for the same program state via {prevv[1]}"),
+                                  {"prev_hist": [list(x) for x in prevv[1][0]], "prev_store": prevv[1][1]}))
             # ---------------- C04: committed paths serve the latest kept value
             if "C04" in oracles and store_kind != "noop" and real.status == "ok" and ref.status == "ok":
                 probs += _check_paths(prog, spec, hist, si, real, ref, fresh=False)
@@ -125,6 +126,12 @@ def run_history(world, spec, hist, store_kind, oracles, sigtab=None, opts=None, 
     finally:
         prog.cleanup()
     return probs, len(hist), obs
+
+
+def _pkg_in_sig(spec):
+    """programs whose source text or external names legitimately spell the (per-instance) package name"""
+    k = spec["key"]
+    return k.startswith("ext|") or "form=import_full" in k or "access=import_full" in k or k == "untracked_module_object" or bool(spec.get("ext"))
 
 
 def _served(prog, spec):
